@@ -138,6 +138,7 @@ func init() {
 		Explain: "Decides: (S5) the shape-only slice calculator and the access-pattern slice calculator compute the same length term, which is ceil((end-start)/step); (S4) both validate through SliceDetails and refuse too many slices; (S7) every path of Reshape that reaches reshape() has established equal total size, is not a non-contiguous view and has materialised a pending lazy transpose, and reshape() only sets the shape and checks sanity; (O8) for the metadata-invariant clause: no two tensors own the same shape/strides slices (an alias lets one tensor's reshape or recycling zero the other's shape); (S12) AP.S marks sliced views NonContiguous (the flag Reshape's refusal keys on); (S14) every call of the lock-respecting AP.SetShape happens on a pattern unlocked on every path (otherwise the shape is silently not installed and size != product of shape); (L1) RepeatReuse accepts a destination only when its shape is the computed result shape. " +
 			"Not decided: that shape and strides address distinct in-bounds positions (a runtime invariant over values), that reshape preserves the flat sequence, repeat/concat calculators' arithmetic.",
 		Run: func(rc *rules.RC) {
+			rules.T7(rc)
 			rules.S17(rc)
 			rules.SV(rc, 20)
 			rules.V2(rc, 2)
@@ -158,6 +159,7 @@ func init() {
 			"Not decided: that the permutation arithmetic (UnsafePermute, cycle following, iterator order) is the right permutation; the composition law.",
 		Quick: []string{"default", "inplacetranspose"},
 		Run: func(rc *rules.RC) {
+			rules.T11(rc)
 			rules.S18(rc)
 			rules.T9(rc)
 			rules.T10(rc)
@@ -226,6 +228,7 @@ func init() {
 			"Not decided: counts, run/edge finders, fill values, that valid positions get the unmasked value of elementwise operations.",
 		Quick: []string{"default", "inplacetranspose"},
 		Run: func(rc *rules.RC) {
+			rules.K1(rc, rules.Families(rc.P), func(f string) bool { return strings.HasPrefix(f, "internal/execution.") }, 2000)
 			rules.B2(rc)
 			rules.DA(rc, 50)
 			rules.I7(rc)
@@ -338,6 +341,7 @@ func init() {
 		Explain: "Decides: (F1) for every dtype the .npy writer accepts, the reader maps its descriptor back to the same dtype (both tables and the reader's special cases evaluated statically for the int size of the configuration); (F2) GobEncode puts exactly the tensor's own Shape(), Strides(), order, triangle, mask, Data() on the wire and GobDecode reads the same sequence and installs every value; (F5) the rank-1 .npy header form is used only for rank-1 tensors; (L1/L4) whether WriteNpy, GobEncode and ToMat64 consult the layout before emitting raw storage (they do not: known findings 18, 28); (K3/K1arms) the typed arms of the readers (convFromStrs, ReadNpy) use their own label type and bit size; (LF) every counting loop that emits elements by flat index is a reviewed site or is guarded by the layout predicate and consults the data order (a new flat fast path in a writer is reported); (S14) the readers install the decoded shape through an unlocked access pattern on every path (decoding into a tensor already in use must not silently keep the old shape); (P2) the writers do not modify the tensor. " +
 			"Not decided: value-level round trip (number formatting/parsing, header padding arithmetic, CSV record assembly), protobuf/flatbuffers field mapping.",
 		Run: func(rc *rules.RC) {
+			rules.F4(rc)
 			rules.F3(rc)
 			rules.WC(rc, 15)
 			rules.O6opt(rc)
@@ -385,6 +389,7 @@ func init() {
 			"Not decided: the assembly divmod, numerical equality of results across engines, the cycle-following arithmetic of the in-place transpose.",
 		Quick: []string{"default", "inplacetranspose", "noasm"},
 		Run: func(rc *rules.RC) {
+			rules.T11(rc)
 			rules.T9(rc)
 			rules.T10(rc)
 			rules.B1(rc)
